@@ -325,8 +325,43 @@ class GenInh(Gen):
         m = self.mir
         sp = m["sp"]
         p = rng.choice(sp)
-        k = rng.randrange(14)
+        k = rng.randrange(17)
         badname = rng.choice(["1x", "_p", "for", "a b", ""])
+        if k >= 14:
+            # a name that is free in p but taken, as a member of ANOTHER kind, in a
+            # space deriving from p -- preferably not a direct sub space
+            subs = [q for q in sp if q != p and tp(p) in self.mro(q)[1:]]
+            far = [q for q in subs if tp(p) not in [tp(b) for b in m["bases"][tp(q)]]]
+            if not subs:
+                return None
+            q = rng.choice(far) if far and rng.random() < 0.7 else rng.choice(subs)
+            mine = self.enames(p, "cells") + self.enames(p, "refs") + self.children(p)
+            if k == 14:   # cells (new or renamed) named like a reference / child of a sub space
+                taken = [n for n in list(m["refs"][tp(q)]) + self.children(q) if n not in mine]
+                if not taken:
+                    return None
+                nm = rng.choice(taken)
+                self.sigs.setdefault(nm, [["i", 0, 0]])
+                self.rank.setdefault(nm, 0)
+                own = list(m["cells"][tp(p)])
+                if own and rng.random() < 0.4:
+                    return {"op": "rename_cells", "s": list(p), "c": rng.choice(own), "c2": nm,
+                            "expect": "clash-in-sub"}
+                return {"op": "new_cells", "s": list(p), "c": nm,
+                        "rec": {"f": self.formula(p, "x"), "cached": True, "an": 0},
+                        "expect": "clash-in-sub"}
+            if k == 15:   # reference named like a cells / child of a sub space
+                taken = [n for n in list(m["cells"][tp(q)]) + self.children(q) if n not in mine]
+                if not taken:
+                    return None
+                return {"op": "set_ref", "s": list(p), "n": rng.choice(taken), "v": ["int", 9, [], ""],
+                        "mode": "auto", "via": "set_ref", "expect": "clash-in-sub"}
+            # child space named like a cells / reference of a sub space
+            taken = [n for n in list(m["cells"][tp(q)]) + list(m["refs"][tp(q)]) if n not in mine]
+            if not taken or len(p) > 1:
+                return None
+            return {"op": "new_space", "p": list(p) + [rng.choice(taken)], "bases": [],
+                    "expect": "clash-in-sub"}
         if k == 0:
             return {"op": "new_cells", "s": list(p), "c": badname or "2y",
                     "rec": {"f": self.formula(p, "x"), "cached": True, "an": 0}, "expect": "badname"}
